@@ -114,8 +114,8 @@ static const char* const V_RWT[] = {"w", ""};
 static const char* const ATTRVAL = "s";
 static const char* const DATASTR = "d";
 static const int BIGCOUNT = 4100;  // larger than the 4096-unit stack buffers used by DOMCharacterDataImpl
-// count choices: 0, 1, len+1, BIGCOUNT
-inline int countChoice(int w, int len) { return w == 0 ? 0 : w == 1 ? 1 : w == 2 ? len + 1 : BIGCOUNT; }
+// count choices: 0, 1, len+1, BIGCOUNT (the generator stores the actual count in Opn::w)
+inline int countChoice(int i, int len) { return i == 0 ? 0 : i == 1 ? 1 : i == 2 ? len + 1 : BIGCOUNT; }
 
 inline bool validName(const std::string& s) {  // XML 1.0 Name restricted to ASCII
     if (s.empty()) return false;
@@ -150,16 +150,25 @@ struct Expect {
 
 struct Ref {
     RDom d;
+    // error set of the four child-list operations without touching the model (lets the explorer skip the copy for calls that must fail)
+    bool treeOpErrors(const Opn& op, std::set<int>& errs) const {
+        switch (op.code) {
+        case OP_APPEND: insertErrors(op.t, op.a, -1, false, -1, errs); return true;
+        case OP_INSERT: insertErrors(op.t, op.a, op.b, op.b != -1, -1, errs); return true;
+        case OP_REMOVE: if (op.a == -1 || d.n[op.a].parent != op.t) errs.insert(NOT_FOUND_ERR); return true;
+        case OP_REPLACE: insertErrors(op.t, op.a, op.b, true, op.b, errs); return true;
+        }
+        return false;
+    }
 
     // ---- hierarchy rules
     bool allowedChild(int ptype, int c) const {
         int ct = d.n[c].type;
         switch (ptype) {
         case DOC:
-            if (ct == EL || ct == COMMENT) return true;
-            // [N1] Xerces extension (DOMDocumentImpl::isKidOK): a Text node consisting only of white space may be a child of a Document
-            if (ct == TEXT) { for (char ch : d.n[c].data) if (ch != ' ' && ch != '\t' && ch != '\n' && ch != '\r') return false; return true; }
-            return false;
+            // (Xerces additionally admits non-empty white-space-only Text below a Document, DOMDocumentImpl::isKidOK; the alphabet never
+            //  produces such a string, so the rule of the recommendation is used unchanged)
+            return ct == EL || ct == COMMENT;
         case EL: case FRAG: return ct == EL || ct == TEXT || ct == COMMENT;
         case ATTR: return ct == TEXT;
         }
@@ -451,7 +460,7 @@ struct Ref {
             else T.data.insert(op.v, DATASTR);
             break;
         case OP_DELETEDATA: case OP_REPLACEDATA: case OP_SUBSTRING: {
-            size_t len = T.data.size(), off = op.v, cnt = countChoice(op.w, (int)len);
+            size_t len = T.data.size(), off = op.v, cnt = op.w;
             if (off > len) { e.errs.insert(INDEX_SIZE_ERR); break; }
             if (off + cnt > len) cnt = len - off;
             if (op.code == OP_SUBSTRING) { e.hasStr = true; e.str = T.data.substr(off, cnt); break; }
